@@ -60,4 +60,7 @@ def get_gradient_projection_unit_scaling(
     # perform a bounded update
     updated_params = x - np.clip(x - grad, a_min=lbounds, a_max=ubounds)
     max_change = max(abs(updated_params))
+    if max_change == 0:
+        # stationary point (zero projected gradient): there is nothing to scale
+        return 1.0
     return 1.0 / max_change
